@@ -399,6 +399,12 @@ func (s *Server) handleLogin(conn net.Conn, id, resp string) {
 
 // authenticate validates credentials against external API
 func (s *Server) authenticate(username, password string) bool {
+	// An email address has exactly one "@" (the IMAP login refuses such usernames too)
+	if strings.Count(username, "@") > 1 {
+		log.Printf("Rejecting username with more than one @")
+		return false
+	}
+
 	// Construct email address
 	email := username
 	if !strings.Contains(username, "@") {
